@@ -298,7 +298,7 @@ def dict_method(ev, ref, o, meth, args, kwargs, node):
             return default
         v = o.items[k]
         if isinstance(v, Maybe):
-            if ev.pure:
+            if ev.pure or getattr(st.run, "lazy_opt", False):
                 return ev.ite(v.present, v.value, default)
             return v.value if st.decide(v.present) else default
         return v
@@ -328,6 +328,9 @@ def dict_method(ev, ref, o, meth, args, kwargs, node):
         if k in o.items and o.items[k] is not ABSENT:
             v = o.items[k]
             if isinstance(v, Maybe):
+                if len(args) > 1 and getattr(st.run, "lazy_opt", False):
+                    del o.items[k]
+                    return ev.ite(v.present, v.value, args[1])
                 if st.decide(v.present):
                     del o.items[k]
                     return v.value
